@@ -154,34 +154,33 @@ def generate(rng, tier):
 REFINED = ["ConstDivisor::new (shift)", "ConstSingleDivisor::rem_word/rem_dword/rem_large", "ConstDoubleDivisor::rem_dword/rem_large",
            "ConstLargeDivisor::rem_repr/rem_large", "IntoRing for UBig/IBig", "Reduced::residue/modulus",
            "Neg/Add/Sub/Mul/Div for Reduced", "Reduced::dbl/sqr/inv/pow", "mul_normalized/sqr_normalized",
-           "single::pow/double::pow (pow_word, pow_helper)", "num-modular invm (mirrored extended Euclid)",
+           "single::pow/double::pow (pow_word, pow_helper)", "large::pow / pow_nontrivial (windowed exponentiation, odd-power table, choose_pow_window_len)",
+           "num-modular invm (mirrored extended Euclid)",
            "Reducer<UBig> for ConstDivisor: transform/check/add/dbl/sub/neg"]
 FRONTIER = ["num_modular Normalized2by1Divisor/3by2Divisor div_rem_{1by1,2by1,2by2,3by2,4by2} and dashu fast_rem_by_normalized_(d)word, "
             "div_rem_in_place: contract parameters, modelled as exact %",
             "mul::multiply / sqr::sqr on word slices: modelled as exact * (C01 frontier)",
-            "inv_large: gcd::gcd_ext_word/_dword/_in_place (Lehmer) specified by the mirrored invm (the inverse is unique mod m)",
-            "large::pow_nontrivial (windowed exponentiation): mirrored and executed, refinement theorem not yet proved"]
+            "inv_large: gcd::gcd_ext_word/_dword/_in_place (Lehmer) specified by the mirrored invm (the inverse is unique mod m)"]
 RULE = ("moduli from {1, 2^k, odd/even single word, double word with/without normalisation shift, 3..70 words with aligned/unaligned "
         "top word, all-ones / 100..0 / low-words-zero patterns} x operands of any sign and size (reduced, multiples of m, m+-1, "
         "size-class boundaries, up to 140 words) x exponents 0..3 words incl. long zero runs x ops {reduce, + - * / neg dbl sqr pow inv eq, "
         "mixing two ConstDivisor instances, the num_modular::Reducer impl}; non-invertible elements by construction (multiples of a "
         "factor of m); sums/doubles that hit exactly m. Non-trivial := modulus above one word; distinct := distinct (op,args) lines.")
 EXPLANATION = ("Lean theorems (all W, all moduli, all integers): reduce yields a Valid pre-shifted residue equal to a mod m; + - * neg dbl "
-               "sqr preserve Valid and commute with residue; single/double-word pow = a^e mod m for every e; inv = Some x iff gcd(a,m)=1 "
+               "sqr preserve Valid and commute with residue; pow = a^e mod m for every e in every ring (square-and-multiply over words; windowed loop for multi-word rings); inv = Some x iff gcd(a,m)=1 "
                "and then a*x = 1; division; different rings panic. Division primitives of num-modular are contract parameters.")
 ASSUMPTIONS = ["num_modular div_rem_* primitives and dashu's div_rem_in_place/fast_rem_by_normalized_* satisfy their floor-division contract",
                "mul::multiply/sqr::sqr are exact (C01)"]
 LEVEL_TEXT = ("Machine-checked Lean 4 theorems over an executable model that mirrors the pre-shifted residue representation of "
               "ConstDivisor/Reduced (single, double and multi-word rings): for every word size, modulus m >= 1 and all integers, "
-              "reduce/+/-/*/neg/dbl/sqr/pow/inv/div are the homomorphic image of integer arithmetic with residues in [0,m), inverse "
+              "reduce/+/-/*/neg/dbl/sqr/pow (incl. the windowed multi-word loop)/inv/div are the homomorphic image of integer arithmetic with residues in [0,m), inverse "
               "exists iff coprime, mixing rings panics. The model is tied to /repo on every run by differential execution against "
               "ConstDivisor::reduce, all Reduced operator call forms and the num_modular::Reducer impl.")
 LEVEL_NOTE = ("Trusted: Lean kernel; axioms propext/Classical.choice/Quot.sound; correspondence harness + generators (sampling) for the tie "
               "model<->code; num-modular's division primitives and dashu's multi-word multiply/divide kernels at their exact contracts "
-              "(% and *); the windowed multi-word exponentiation loop is mirrored and executed against the spec but its refinement "
-              "theorem is not yet proved; Lehmer-based inverse of multi-word rings is specified by the mirrored extended Euclid.")
+              "(% and *); the Lehmer-based inverse of multi-word rings is specified by the mirrored extended Euclid (the inverse is unique).")
 TECHNIQUE = "Lean 4 refinement proofs (value-level model of the pre-shifted residue representation) + differential correspondence model vs real code"
 THEOREMS = ["Dashu.Props.C13." + t for t in ["new_spec", "reduce_spec", "ops_closed", "hom_add", "hom_sub", "hom_mul", "hom_neg", "hom_dbl",
-            "hom_sqr", "hom_pow_word_rings", "hom_pow_large_partial", "inv_spec", "div_spec", "different_rings",
+            "hom_sqr", "hom_pow", "inv_spec", "div_spec", "different_rings",
             "different_instances_same_modulus", "reducer_ops", "one_asIs_counterexample", "reducer_add_asIs_counterexample"]]
 READY = True
